@@ -491,8 +491,16 @@ def g_multi_matmul(b):
         return None
     dims = [np.shape(b.val(x))[1]] + [rng.randint(1, 3) for _ in range(rng.randint(1, 3))]
     names = [x]
+    if rng.random() < 0.3:
+        # a (constant or trainable) first operand in front of the picked one: a 1-D vector or a matrix, tensor or plain array
+        k0 = np.shape(b.val(x))[0]
+        names.insert(0, b.leaf((k0,) if rng.random() < 0.5 else (rng.randint(1, 3), k0), kind=rng.choice(["tensor", "tensor", "array"]),
+                               **({"constant": rng.choice([True, True, None])} if True else {})))
     for i in range(len(dims) - 1):
-        names.append(b.leaf((dims[i], dims[i + 1]), kind=rng.choice(["tensor", "tensor", "array"])))
+        last = i == len(dims) - 2
+        shp = (dims[i],) if (last and rng.random() < 0.4) else (dims[i], dims[i + 1])      # the last operand sometimes a 1-D vector
+        kind = rng.choice(["tensor", "tensor", "array"])
+        names.append(b.leaf(shp, kind=kind, **({"constant": rng.choice([None, None, True])} if kind == "tensor" else {})))
     return b.call("multi_matmul", [["l", [R(n) for n in names]]], sp="mg")
 
 
@@ -924,7 +932,7 @@ def g_repeat(b):
 
 
 NODE_GENS = [
-    (g_unary, 22), (g_param_act, 5), (g_binary, 22), (g_matmul, 5), (g_seq, 3), (g_multi_matmul, 1),
+    (g_unary, 22), (g_param_act, 5), (g_binary, 22), (g_matmul, 5), (g_seq, 3), (g_multi_matmul, 2),
     (g_reduce, 10), (g_cum, 3), (g_norm, 2), (g_einsum, 5), (g_getitem, 8), (g_where, 3), (g_clip, 2),
     (g_shape, 10), (g_join, 4), (g_repeat, 2),
 ]
